@@ -12139,6 +12139,10 @@ CK_RV SoftHSM::getRSAPrivateKey(RSAPrivateKey* privateKey, Token* token, OSObjec
 		coefficient = key->getByteStringValue(CKA_COEFFICIENT);
 	}
 
+	// A key without modulus or public exponent cannot be used (and crashes the crypto library)
+	if (modulus.size() == 0 || publicExponent.size() == 0)
+		return CKR_GENERAL_ERROR;
+
 	privateKey->setN(modulus);
 	privateKey->setE(publicExponent);
 	privateKey->setD(privateExponent);
@@ -12177,6 +12181,9 @@ CK_RV SoftHSM::getRSAPublicKey(RSAPublicKey* publicKey, Token* token, OSObject* 
 		publicExponent = key->getByteStringValue(CKA_PUBLIC_EXPONENT);
 	}
 
+	if (modulus.size() == 0 || publicExponent.size() == 0)
+		return CKR_GENERAL_ERROR;
+
 	publicKey->setN(modulus);
 	publicKey->setE(publicExponent);
 
@@ -12214,6 +12221,9 @@ CK_RV SoftHSM::getDSAPrivateKey(DSAPrivateKey* privateKey, Token* token, OSObjec
 		generator = key->getByteStringValue(CKA_BASE);
 		value = key->getByteStringValue(CKA_VALUE);
 	}
+
+	if (prime.size() == 0 || subprime.size() == 0 || generator.size() == 0 || value.size() == 0)
+		return CKR_GENERAL_ERROR;
 
 	privateKey->setP(prime);
 	privateKey->setQ(subprime);
@@ -12254,6 +12264,9 @@ CK_RV SoftHSM::getDSAPublicKey(DSAPublicKey* publicKey, Token* token, OSObject* 
 		generator = key->getByteStringValue(CKA_BASE);
 		value = key->getByteStringValue(CKA_VALUE);
 	}
+
+	if (prime.size() == 0 || subprime.size() == 0 || generator.size() == 0 || value.size() == 0)
+		return CKR_GENERAL_ERROR;
 
 	publicKey->setP(prime);
 	publicKey->setQ(subprime);
@@ -12419,6 +12432,9 @@ CK_RV SoftHSM::getDHPrivateKey(DHPrivateKey* privateKey, Token* token, OSObject*
 		generator = key->getByteStringValue(CKA_BASE);
 		value = key->getByteStringValue(CKA_VALUE);
 	}
+
+	if (prime.size() == 0 || generator.size() == 0 || value.size() == 0)
+		return CKR_GENERAL_ERROR;
 
 	privateKey->setP(prime);
 	privateKey->setG(generator);
